@@ -541,9 +541,11 @@ def rule_fold_zeros(P):
 
 
 def rule_card_skipped(P):
-    """cardinality: a level the diagram skips multiplies the count by the size of *that* level — except a primed level skipped in an
-    identity-reduced relation forest (one matching value, not all) — and the recursion continues with the same node one level down"""
-    R = RuleResult("card.skipped-levels", "in every instantiation of card_templ::_compute: when the node is below the current level the fold recurses on the same node at the next level and scales the count by getLevelSize(current level) on every path except primed levels of identity-reduced forests; level 0 counts 1")
+    """cardinality: a level the diagram skips multiplies the count by the size of *that* level, in the arithmetic of the result type — except a
+    primed level skipped in an identity-reduced relation forest (one matching value, not all) — and the fold continues with the same node below.
+    The rule is written over what must hold, not over how the loop is spelled: a rewrite that scales level by level in a loop passes; one that
+    first multiplies the sizes into a machine integer does not (seed C11a)."""
+    R = RuleResult("card.skipped-levels", "in every instantiation of card_templ::_compute: each scaleBy multiplies by getLevelSize(k) of a level k walked down from the current level (never by a product kept in a machine integer), cannot be reached for k<=0 in an identity-reduced forest, cannot be avoided otherwise on the skipped-level path; the fold continues with the same node; level 0 counts 1")
     n = 0
     for f in sorted(P.fns.values(), key=lambda f: (f["file"], f["line"], f["inst"])):
         if not f.get("cfg") or f["file"] != "operations/cardinality.cc" or not f["q"].endswith("::_compute") or "card_templ" not in f["q"]:
@@ -556,58 +558,109 @@ def rule_card_skipped(P):
         n += 1
         R.functions.add(f["inst"])
         inst = f["inst"].replace(M, "")[:60]
-        skip = [b for b in g.nodes if b.kind == "branch" and b.cond and len(b.succ) == 2 and b.cond.get("op") == "!=" and any(c.endswith("getNodeLevel") for c in b.cond["calls"])
-                and re.search(r"(?<!\w)%s(?!\w)" % lv, b.cond["text"])]
+        defs = {}
+        for k in g.nodes:
+            if k.kind == "ldef" and k.ev.get("rhs") is not None:
+                defs.setdefault(k.ev["var"], []).append(k)
+        # levels walked down from the current level: the parameter itself, or a local started at it and stepped by downLevel
+        def walks_from_current(x, depth=0):
+            if x == lv:
+                return True
+            ds = defs.get(x, [])
+            if not ds or depth > 2:
+                return False
+            starts = [d for d in ds if _nz(d.ev["rhs"]) == lv or walks_from_current(_nz(d.ev["rhs"]), depth + 1) and re.fullmatch(r"\w+", _nz(d.ev["rhs"]))]
+            steps = [d for d in ds if re.search(r"downLevel\(%s\)" % re.escape(x), _nz(d.ev["rhs"]))]
+            return bool(starts) and len(starts) + len(steps) == len(ds)
+        skip = [b for b in g.nodes if b.kind == "branch" and b.cond and len(b.succ) == 2 and b.cond.get("op") == "!=" and re.search(r"(?<!\w)%s(?!\w)" % lv, b.cond["text"]) and
+                (any(c.endswith("getNodeLevel") for c in b.cond["calls"]) or any(any("getNodeLevel" in _nz(d.ev["rhs"]) for d in defs.get(r_, [])) for r_ in b.cond.get("refs", [])))]
         if not skip:
-            raise AnalysisBroken("card.skipped-levels: no `getNodeLevel(%s) != %s` test in %s" % (nd, lv, f["inst"]))
+            raise AnalysisBroken("card.skipped-levels: no `<level of %s> != %s` test in %s" % (nd, lv, f["inst"]))
         b = skip[0]
         ti = 1 if b.cond.get("neg") else 0
-        arm = g.reach([s_ for s_, i in b.succ if i == ti], avoid=lambda k: k.kind == "ret")
-        other = g.reach([s_ for s_, i in b.succ if i != ti])
-        only = arm - other
-        rec = [k for k in g.nodes if k.id in only and k.kind == "call" and k.ev["q"] == f["q"]]
-        nextl = {k.ev["var"] for k in g.nodes if k.kind == "ldef" and DISPATCH.search(_nz(k.ev.get("rhs", ""))) and DISPATCH.search(_nz(k.ev["rhs"])).group(1) == lv}
-        iid = "%s: skipped level recurses on the same node at the next level" % inst
+        first = [s_ for s_, i in b.succ if i == ti]
+        arm = g.reach(first, avoid=lambda k: k.kind == "ret") - g.reach([s_ for s_, i in b.succ if i != ti])
+        rec = [k for k in g.nodes if k.id in arm and k.kind == "call" and k.ev["q"] == f["q"]]
+        iid = "%s: the skipped-level path continues the fold with the same node" % inst
         R.paths += 1
-        if len(rec) == 1 and _nz(rec[0].ev["args"][0]) in nextl and _nz(rec[0].ev["args"][1]) == nd and _nz(rec[0].ev["args"][2]) == rs:
+        if rec and all(_nz(k.ev["args"][1]) == nd and _nz(k.ev["args"][2]) == rs for k in rec):
             R.ok(iid, where(f, rec[0].line))
         else:
-            R.fail(iid, where(f, b.line), Finding(R.rule, f["file"], base_name(f["q"]), "skip-recursion", "on the skipped-level path the fold must call itself with (next level of %s, %s, %s); found %s" % (
-                lv, nd, rs, [k.ev["args"] for k in rec]), b.line, inst=f["inst"]))
+            R.fail(iid, where(f, b.line), Finding(R.rule, f["file"], base_name(f["q"]), "skip-recursion", "on the skipped-level path the fold must call itself on (%s, %s); found %s" % (nd, rs, [k.ev["args"] for k in rec]), b.line, inst=f["inst"]))
+        scales = [k for k in g.nodes if k.id in arm and k.kind == "call" and k.ev["q"].endswith("::scaleBy")]
+        if not scales:
+            R.paths += 1
+            R.fail("%s: skipped levels are scaled" % inst, where(f, b.line), Finding(R.rule, f["file"], base_name(f["q"]), "no-scale", "the skipped-level path never calls scaleBy: every skipped level counts as a single value", b.line, inst=f["inst"]))
             continue
-        scale = [k for k in g.nodes if k.id in only and k.kind == "call" and k.ev["q"].endswith("::scaleBy")]
-        iid = "%s: count scaled by the size of the skipped level" % inst
+        pos_b = lambda x: [k for k in g.nodes if k.kind == "branch" and k.cond and len(k.succ) == 2 and _nz(k.cond["text"]).lstrip("!") in ("%s>0" % x, "0<%s" % x)]
+        idr_b = [k for k in g.nodes if k.kind == "branch" and k.cond and len(k.succ) == 2 and any(c.endswith("isIdentityReduced") for c in k.cond["calls"])]
+        atom_edge = lambda k: 1 if k.cond.get("neg") else 0        # edge on which the un-negated atom holds
+        for sc in scales:
+            a0, a1 = _nz(sc.ev["args"][0]), _nz(sc.ev["args"][1])
+            R.paths += 1
+            iid = "%s: scaleBy(%s, %s) multiplies by the size of one walked level, in the result type" % (inst, a0, a1)
+            m = re.fullmatch(r"argF->getLevelSize\((\w+)\)", a1)
+            if a0 != rs:
+                raise AnalysisBroken("card.skipped-levels: scaleBy in %s does not scale the result parameter" % f["inst"])
+            if not m:
+                if re.fullmatch(r"\w+", a1) and any(d.ev.get("op") in ("*=",) for d in defs.get(a1, [])):
+                    R.fail(iid, where(f, sc.line), Finding(R.rule, f["file"], base_name(f["q"]), "scale-product",
+                           "the count is scaled by `%s`, a product of level sizes accumulated in a machine integer: once a run of skipped levels multiplies past its range the factor wraps, whatever the result type (double, arbitrary precision) could hold" % a1, sc.line, inst=f["inst"]))
+                    continue
+                raise AnalysisBroken("card.skipped-levels: the scale factor `%s` in %s is in a form this rule does not read" % (a1, f["inst"]))
+            x = m.group(1)
+            if not walks_from_current(x):
+                R.fail(iid, where(f, sc.line), Finding(R.rule, f["file"], base_name(f["q"]), "scale-arg",
+                       "the count is scaled by the size of level `%s`, which is not the current level `%s` (or a level walked down from it): with non-uniform variable sizes the count is wrong" % (x, lv), sc.line, inst=f["inst"]))
+                continue
+            R.ok(iid, where(f, sc.line))
+            # not reachable for x<=0 in an identity-reduced forest
+            R.paths += 1
+            iid = "%s: scaleBy by level `%s` is not reached for a primed level of an identity-reduced forest" % (inst, x)
+            forb = {(k.id, atom_edge(k)) for k in pos_b(x)} | {(k.id, 1 - atom_edge(k)) for k in idr_b}
+            p_ = g.path(first[0], lambda k, sc=sc: k.id == sc.id, avoid_edge=lambda k, i: (k.id, i) in forb) if first[0] != sc.id else [sc]
+            if p_ is None:
+                R.ok(iid, where(f, sc.line))
+            else:
+                R.fail(iid, where(f, sc.line), Finding(R.rule, f["file"], base_name(f["q"]), "scale-guard",
+                       "the count is scaled by the size of level `%s` also when %s<=0 and the forest is identity reduced: a skipped primed level of an identity pattern stands for one value, not for all" % (x, x), sc.line, inst=f["inst"]))
+        # cannot be avoided otherwise
         R.paths += 1
-        want = "argF->getLevelSize(%s)" % lv
-        if scale and all(_nz(k.ev["args"][0]) == rs and _nz(k.ev["args"][1]) == want for k in scale):
-            R.ok(iid, where(f, scale[0].line))
-        else:
-            R.fail(iid, where(f, b.line), Finding(R.rule, f["file"], base_name(f["q"]), "scale-arg", "expected scaleBy(%s, %s) on the skipped-level path, found %s" % (rs, want, [k.ev["args"] for k in scale]), b.line, inst=f["inst"]))
-            continue
-        # the only way around the scaling: not (L>0) and identity reduced
+        iid = "%s: a skipped level is left unscaled only when it is a primed level of an identity-reduced forest" % inst
         is_ret = lambda k: k.kind == "ret" or k.id == g.exit
-        pos = [k for k in g.nodes if k.id in only and k.kind == "branch" and k.cond and _nz(k.cond["text"]) in ("%s>0" % lv, "0<%s" % lv)]
-        idr = [k for k in g.nodes if k.id in only and k.kind == "branch" and k.cond and any(c.endswith("isIdentityReduced") for c in k.cond["calls"])]
-        iid = "%s: the scaling is skipped only for a primed level of an identity-reduced forest" % inst
-        R.paths += 1
+        sids = {k.id for k in scales}
+        xs = {re.fullmatch(r"argF->getLevelSize\((\w+)\)", _nz(k.ev["args"][1])).group(1) for k in scales if re.fullmatch(r"argF->getLevelSize\((\w+)\)", _nz(k.ev["args"][1]))}
+        xs = {x for x in xs if walks_from_current(x)}     # a wrong-level factor was reported above; the way-around question is asked of the right ones only
+        allow = set()
+        for x in xs:
+            allow |= {(k.id, 1 - atom_edge(k)) for k in pos_b(x)}
+        allow_id = {(k.id, atom_edge(k)) for k in idr_b}
+        around = lambda ae: g.path(first[0], is_ret, avoid=lambda k: k.id in sids, avoid_edge=ae)
         bad = None
-        scale_ids = {k.id for k in scale}
-        around = lambda ae: g.path(rec[0], is_ret, avoid=lambda k: k.id in scale_ids, avoid_edge=ae)
-        if around(None) is None:
-            bad = "the count is scaled even at primed levels of identity-reduced forests"
-        elif len(pos) != 1 or len(idr) != 1:
-            raise AnalysisBroken("card.skipped-levels: the scaling in %s can be skipped, but the guards `%s>0` / `isIdentityReduced()` are not in a form this rule reads" % (f["inst"], lv))
-        else:
-            pt = 1 if pos[0].cond.get("neg") else 0           # edge index on which L>0 holds
-            ident_edge = 1 if idr[0].cond.get("neg") else 0   # edge on which isIdentityReduced() holds (edge 0 = the condition as written is true)
-            if around(lambda k, i: k.id == pos[0].id and i != pt) is not None:
-                bad = "the scaling can be skipped although %s > 0" % lv
-            elif around(lambda k, i: k.id == idr[0].id and i == ident_edge) is not None:
+        in_loop = any(k.id in g.reach([s_ for s_, _i in k.succ]) for k in scales)
+        if in_loop:
+            # a rewrite that scales level by level in a loop: which levels the loop visits is its range, a run-time quantity — not decided
+            R.notes.append("%s: scaleBy sits in a loop; that the loop visits every skipped level is not decided" % inst)
+        elif xs and around(None) is not None:
+            # every way around must cross both the `x<=0` edge and the `is identity reduced` edge
+            pos_true = set()
+            for x in xs:
+                pos_true |= {(k.id, atom_edge(k)) for k in pos_b(x)}
+            notid = {(k.id, 1 - atom_edge(k)) for k in idr_b}
+            if not pos_true or not idr_b:
+                raise AnalysisBroken("card.skipped-levels: the scaling in %s can be skipped, but the guards `level>0` / `isIdentityReduced()` are not in a form this rule reads" % f["inst"])
+            # a path around the scaling that takes no x<=0 edge …
+            allpos = set()
+            for x in xs:
+                allpos |= {(k.id, 1 - atom_edge(k)) for k in pos_b(x)}
+            if around(lambda k, i: (k.id, i) in allpos) is not None:
+                bad = "the scaling can be skipped although the level is unprimed"
+            elif around(lambda k, i: (k.id, i) in allow_id) is not None:
                 bad = "the scaling can be skipped in a forest that is not identity reduced"
         if bad is None:
-            R.ok(iid, where(f, scale[0].line))
+            R.ok(iid, where(f, b.line))
         else:
-            R.fail(iid, where(f, scale[0].line), Finding(R.rule, f["file"], base_name(f["q"]), "scale-guard", bad, scale[0].line, inst=f["inst"]))
+            R.fail(iid, where(f, b.line), Finding(R.rule, f["file"], base_name(f["q"]), "scale-skip", bad, b.line, inst=f["inst"]))
         # level 0 counts one
         z = [k for k in g.nodes if k.kind == "branch" and k.cond and _nz(k.cond["text"]) in ("0==%s" % lv, "%s==0" % lv)]
         iid = "%s: level 0 (below all variables) counts 1" % inst
